@@ -96,3 +96,71 @@ def validate_all(c, pid, tr, tag="", max_findings=3):
         while e < len(evs) and evs[e].get("ev") != "Decls": e += 1
         kept = evs[:s + 1] + [x for x in evs[s + 1:e] if x.get("id") != bid] + evs[e:]
         vlib.ndjson_write(tr, kept)
+
+# ------------------------------------------------------------------------------------------------
+# C20, derive half: container attribute automaton + unions
+
+ATTR_PRE = """#![allow(dead_code, unused)]
+use scale_info::TypeInfo; use core::marker::PhantomData;
+fn ok<T: TypeInfo + 'static>() { let _ = T::type_info(); }
+"""
+
+def item_src(it):
+    k = it["k"]
+    if k == "bounds": return "bounds(%s)" % ", ".join("%s: ::scale_info::TypeInfo + 'static" % p for p in it["ps"])
+    if k == "skip_type_params": return "skip_type_params(%s)" % ", ".join(it["ps"])
+    if k == "capture_docs": return 'capture_docs = "%s"' % ("always" if it["valid"] else "sometimes")
+    if k == "crate": return "crate = ::scale_info"
+    if k == "replace_segment": return 'replace_segment("a", "b")'
+    if k == "unknown": return "frobnicate"
+    raise ValueError(k)
+
+def attr_program(items, split):
+    """split: one #[scale_info(..)] per item, or all items in one attribute"""
+    srcs = [item_src(i) for i in items]
+    attrs = "".join("#[scale_info(%s)]\n" % s for s in srcs) if split else ("#[scale_info(%s)]\n" % ", ".join(srcs) if srcs else "")
+    return ATTR_PRE + "#[derive(TypeInfo)]\n" + attrs + "struct S<T> { m: PhantomData<T>, n: u8 }\nfn main() { ok::<S<u8>>(); }\n"
+
+def c20_derive_half(c, tier):
+    wd = c.wd
+    r = vlib.tlc("MC_Derive", cfg(wd, "MC_Derive_attrs.cfg", 'CONSTANTS MaxFeatures = 0 Mode = "attrs"\nSPECIFICATION Spec\nINVARIANT EmitAttr\nCHECK_DEADLOCK FALSE\n'), wd, workers=1, heap="6g")
+    if not r.ok: raise vlib.ToolError("MC_Derive attrs failed: " + "\n".join(r.errors[:3]))
+    seqs = r.lines("ATTR")
+    if len(seqs) != r.distinct: raise vlib.ToolError("attribute sequence emission incomplete")
+    c.add("states", r.distinct); c.add("transitions", r.generated)
+    seqs.sort(key=lambda s: json.dumps(s, sort_keys=True))
+    deps = rsprog.Deps(())
+    pd = os.path.join(wd, "attrs"); os.makedirs(pd, exist_ok=True)
+    jobs, meta = [], []
+    for i, s in enumerate(seqs):
+        for split in ((True, False) if len(s["items"]) > 1 else (True,)):
+            src = os.path.join(pd, "a%04d_%d.rs" % (i, split)); open(src, "w").write(attr_program(s["items"], split))
+            jobs.append((src, src[:-3] + ".rmeta")); meta.append(s)
+    # unions, and their legal neighbour
+    for name, body in (("union", "union U { a: u8, b: u16 }"), ("union_generic", "union U<T: Copy> { a: T, b: u16 }")):
+        src = os.path.join(pd, name + ".rs"); open(src, "w").write(ATTR_PRE + "#[derive(TypeInfo)]\n" + body + "\nfn main() {}\n")
+        jobs.append((src, src[:-3] + ".rmeta")); meta.append({"items": [{"k": name}], "accept": False})
+    src = os.path.join(pd, "union_neighbour.rs"); open(src, "w").write(ATTR_PRE + "#[derive(TypeInfo)]\nstruct U { a: u8, b: u16 }\nfn main() { ok::<U>(); }\n")
+    jobs.append((src, src[:-3] + ".rmeta")); meta.append({"items": [{"k": "struct"}], "accept": True})
+    import concurrent.futures as cf
+    with cf.ThreadPoolExecutor(max_workers=16) as ex:
+        res = list(ex.map(lambda j: deps.compile(j[0], j[1], extra=["--emit=metadata"]), jobs))
+    accepted_bad, rejected_good, by_derive = [], [], 0
+    for (src, out), s, (ok, diags) in zip(jobs, meta, res):
+        if os.path.exists(out): os.unlink(out)
+        if s["accept"] and not ok: rejected_good.append((src, s, diags))
+        if not s["accept"]:
+            if ok: accepted_bad.append((src, s))
+            elif any(d.get("code") is None for d in diags): by_derive += 1      # an error reported by the macro itself has no rustc code
+            else: accepted_bad.append((src, s))   # only downstream rustc errors: the derive emitted an implementation instead of reporting
+    if rejected_good:
+        src, s, diags = rejected_good[0]
+        raise vlib.ToolError("a legal attribute sequence does not compile (legal-neighbour rule; renderer or derive problem outside C20): %s\n%s" % (src, diags[0]["rendered"][:500] if diags else ""))
+    nneg = sum(1 for s in meta if not s["accept"])
+    c.add("programs", len(jobs)); c.add("evaluations", nneg); c.add("negative_derive_programs", nneg); c.add("traces_validated_against_impl", len(jobs))
+    c.cov["derive_negatives_rejected_by_macro_error"] = by_derive
+    c.sample({"must_not_compile": open(next(j[0] for j, s in zip(jobs, meta) if not s["accept"])).read()[len(ATTR_PRE):]})
+    if accepted_bad:
+        src, s = accepted_bad[0]
+        rp = c.replay_file("ill_formed_derive_accepted.rs", open(src).read())
+        c.violation("derive-accepts", "%d ill-formed derive inputs are not rejected by the derive itself (they compile, or only fail later in rustc on the emitted implementation); first items: %s" % (len(accepted_bad), json.dumps(s["items"])), rp)
